@@ -369,6 +369,8 @@ func init() {
 		ext(id, "client-streaming method over plain HTTP through ServeHTTP: 1..3 messages (length-delimited protobuf or JSON framing, symbolic bytes) in a body of known length, of unknown length (HTTP/2 style, ContentLength -1) or chunked: exactly the messages in order, then a clean end of stream, then the reply",
 			HarnessSpec{Name: "VerifH_serveHTTP_clientstream", Covers: []string{"content-length", "unknown-length", "chunked"}})
 	}
+	ext("C03", "an HttpBody request message retained by its handler stays equal to what was sent while a later request reuses the pooled buffers",
+		HarnessSpec{Name: "VerifH_pool_alias", Covers: []string{"two-requests"}})
 	wkt := "well-known-type parameters (google.protobuf wrappers, FieldMask, Duration, Timestamp) through the real parseQueryParams / parseParam / quote / params.set: the empty text for each of 10 types, a menu of 40 boundary texts (non-BMP strings, 32/64-bit limits, duration range and Go-style units, leap days, RFC 3339 range), symbolic texts of 1..3 (quick) / 1..4 (thorough) bytes for StringValue, BoolValue, Int32Value / UInt32Value, BytesValue, FieldMask; protojson's scalar forms modelled (model_wkt.go), generated messages seen through a fake reflection view"
 	for _, id := range []string{"C03", "C09", "C01"} {
 		ext(id, wkt, HarnessSpec{Name: "VerifH_params_wkt", Covers: []string{"empty-value", "menu-accepted", "menu-rejected", "string-wrapper", "bool-wrapper", "int-wrapper", "int-wrapper-rejected", "bytes-wrapper", "fieldmask", "fieldmask-rejected"}})
